@@ -2,8 +2,8 @@
 from reg._common import COMMON_ASSUME
 
 ENTRY = {
-    'lean_files': ['Tables/C03.lean', 'Props/C03.lean', 'Props/C03Pipeline.lean'],
-    'lemma_files': ['Model/Geometric.lean', 'Model/GeometricInst.lean', 'Model/Helpers.lean', 'Model/Newton.lean', 'Model/Locate.lean', 'Lemmas/Pipeline.lean', 'Lemmas/TangentEnds.lean', 'Lemmas/EvalBary.lean', 'Lemmas/Bridge.lean', 'Lemmas/Shift.lean',
+    'lean_files': ['Tables/C03.lean', 'Props/C03.lean', 'Props/C03Pipeline.lean', 'Props/C03Coverage.lean'],
+    'lemma_files': ['Lemmas/Coverage.lean', 'Model/Geometric.lean', 'Model/GeometricInst.lean', 'Model/Helpers.lean', 'Model/Newton.lean', 'Model/Locate.lean', 'Lemmas/Pipeline.lean', 'Lemmas/TangentEnds.lean', 'Lemmas/EvalBary.lean', 'Lemmas/Bridge.lean', 'Lemmas/Shift.lean',
                     'Lemmas/VS.lean', 'Model/Curve.lean', 'Model/Basic.lean'],
     'script': 'props/c03.py',
     'rule': 'cases = (ordered pair of planar control nets, route Curve.intersect | all_intersections), geometric strategy; inputs as '
